@@ -108,10 +108,14 @@ func cfgName(c *service.Config) string {
 var epAddr = map[string]string{"a": "10.0.0.1", "b": "10.0.0.2"}
 
 // mkEps: one endpoint per letter; a lower-case letter is a main endpoint, an upper-case one the same address
-// announced as a backup endpoint.
+// announced as a backup endpoint; '!' marks the endpoint before it as reported DOWN.
 func mkEps(names string) []*service.Endpoint {
 	var out []*service.Endpoint
 	for _, n := range names {
+		if n == '!' { // the endpoint before is reported with state DOWN (e.g. a removal that says why)
+			out[len(out)-1].State = service.Endpoint_DOWN
+			continue
+		}
 		ep := &service.Endpoint{Address: &common.Address{Ip: epAddr[strings.ToLower(string(n))], Port: 80}}
 		if n >= 'A' && n <= 'Z' {
 			ep.Type = service.Endpoint_BACKUP
@@ -157,6 +161,8 @@ func c08alphabet() []c08op {
 		// the same address announced with the other type: alone (ignored while present), and removed and
 		// re-added in one update (the type changes)
 		ops = append(ops, c08op{Kind: "ep", Svc: s, Added: "A"}, c08op{Kind: "ep", Svc: s, Added: "A", Removed: "a"}, c08op{Kind: "ep", Svc: s, Added: "a", Removed: "a"})
+		// a removal whose descriptor reports the endpoint as DOWN (endpoints are identified by their address)
+		ops = append(ops, c08op{Kind: "ep", Svc: s, Removed: "a!"}, c08op{Kind: "ep", Svc: s, Added: "b", Removed: "a!"})
 	}
 	return ops
 }
